@@ -201,6 +201,18 @@ def check_threshold(case, ctx):
             back = ex
         require(back == secret, "threshold/reference_cannot_recover_from_library_shares",
                 f"{k}-of-{n}: {back!r}")
+        # one ShareSet object asked repeatedly (a wrong passphrase cannot be detected in SLIP39: it yields
+        # another secret, and the user simply tries again on the same object)
+        ss = must(ShareSet, "threshold/ShareSet", [Share.parse(m) for m in sub_k])
+        wrong = pw + b"?"
+        st0, other = attempt(ss.recover, wrong)
+        require(st0 == "ok" and other == ref.recover(sub_k, wrong), "threshold/wrong_passphrase_result",
+                f"{k}-of-{n}: {other!r}")
+        for attempt_no in (1, 2):
+            st_, got = attempt(ss.recover, pw)
+            require(st_ == "ok" and got == secret, "threshold/repeated_recover_on_one_share_set",
+                    f"{k}-of-{n}, call {attempt_no} after a call with another passphrase: {got!r}")
+        ctx.label("share_set_object_reused")
         # ... and every share lies on the same polynomial
         try:
             ref.recover_lenient(shares)
